@@ -137,7 +137,7 @@ MCAST6 = ("ff02::1:5", 30490, 0, 0)
 
 
 def make_sd(sim, timings=None, sockname=("10.0.0.1", 30490), mcast=MCAST, on_send=None):
-    prot = sd.ServiceDiscoveryProtocol(mcast, timings=timings)
+    prot = sd.ServiceDiscoveryProtocol(mcast, timings=timings) if timings is not None else sd.ServiceDiscoveryProtocol(mcast)
     prot.transport = FakeTransport(sim, sockname, on_send)
     return prot
 
